@@ -63,6 +63,8 @@ type HandPlan struct {
 	FailOrd      map[int]int `json:"failord,omitempty"` // backend ordinal -> failures before success
 	FailKind     map[string]int `json:"failkind,omitempty"`
 	MaxTurns     int    `json:"maxturns,omitempty"`
+	ThinkMs      int    `json:"thinkms,omitempty"`   // the mover of turn ThinkTurn waits this long before acting
+	ThinkTurn    int    `json:"thinkturn,omitempty"`
 }
 
 type Step struct {
@@ -1313,6 +1315,9 @@ func (d *TD) playHand(plan *HandPlan) string {
 			}
 			kind, amt := d.chooseAction(plan, gs, turn)
 			id := d.idOfGameIdx(gs.Status.CurrentPlayer)
+			if plan.ThinkMs > 0 && turn == plan.ThinkTurn {
+				time.Sleep(time.Duration(plan.ThinkMs) * time.Millisecond) // the player takes his time: the next request is made that much later
+			}
 			res := d.act(id, kind, amt, "cur")
 			turn++
 			if res != "ok" {
